@@ -782,6 +782,16 @@ def _match_forms(exp, got, unsigned, decq):
         return problems
 
 
+def _over_locations(it):
+    """The loop visits cls.locations in order: the tuple itself, or a zip /
+    enumerate that pairs it with something else."""
+    if unparse(it) == "cls.locations":
+        return True
+    return isinstance(it, ast.Call) and unparse(it.func) in (
+        "zip", "enumerate") and bool(it.args) and unparse(
+            it.args[0]) == "cls.locations" and not it.keywords
+
+
 def _check_from_list_order(run, repo, world):
     """read_raw and from_list build the raw bytes in cls.locations order."""
     mv = world.cls(LOC + ".MemoryValue")
@@ -790,7 +800,7 @@ def _check_from_list_order(run, repo, world):
         fn = mv.methods[m][1]
         loops = [n for n in ast.walk(fn) if isinstance(n, ast.For)]
         run.ob("R-DECODE", "%s.MemoryValue.%s#location-order" % (LOC, m),
-               len(loops) == 1 and unparse(loops[0].iter) == "cls.locations",
+               len(loops) == 1 and _over_locations(loops[0].iter),
                "%s must assemble the bytes in cls.locations order" % m,
                where(mod, fn), trivial=True)
 
